@@ -38,3 +38,9 @@ Theorem C05_clean_reopen_identity :
   forall d : bytes, FileWal.recover walrev_fixed {| FileWal.data := d; FileWal.wal := [] |} = {| FileWal.data := d; FileWal.wal := [] |}.
 Proof. intros d. reflexivity. Qed.
 Print Assumptions C05_clean_reopen_identity.
+
+(* ... also with the position guard of apply_wal_record (recover_g; None = error) *)
+Theorem C05_clean_reopen_identity_guarded :
+  forall d : bytes, FileWal.recover_g walrev_fixed {| FileWal.data := d; FileWal.wal := [] |} = Some {| FileWal.data := d; FileWal.wal := [] |}.
+Proof. intros d. reflexivity. Qed.
+Print Assumptions C05_clean_reopen_identity_guarded.
